@@ -184,7 +184,7 @@ package jws
 //@   ensures [ok=>unsigned] err == nil ==> result.UnsignedAttributes.SigningAgent == e.base.Header.SigningAgent && result.UnsignedAttributes.TimestampSignature == e.base.Header.TimestampSignature
 //@   loop 0
 //@     invariant len(certs) == it && (it > 0 ==> fresh(certs))
-//@     invariant forall k :: 0 <= k && k < it ==> x509.ParseCertificate(e.base.Header.CertChain[k]).err == nil && certs[k] == x509.ParseCertificate(e.base.Header.CertChain[k]).result0 && certs[k] != nil && nx509.ParsedCert(certs[k])
+//@     invariant forall k :: 0 <= k && k < it ==> x509.ParseCertificate(e.base.Header.CertChain[k]).err == nil && certs[k] == x509.ParseCertificate(e.base.Header.CertChain[k]).result0 && certs[k] != nil && nx509.IsParsed(certs[k])
 
 // stmt C01/C07/C13 (JWS): content is a decoding of exactly the carried protected header and payload
 //@ stmt spec func JWSContentOf(c *signature.EnvelopeContent, m *jwsEnvelope) bool {
@@ -287,7 +287,7 @@ package jws
 //@   requires s != nil && s.signer != nil
 //@   modifies s.certs
 //@   calls Signer.Sign
-//@   ensures [pass-through] called(Signer.Sign) && lastarg(Signer.Sign, 0) == s.signer && ncalls(Signer.Sign) == old(ncalls(Signer.Sign)) + 1
+//@   ensures [pass-through] called(Signer.Sign) && lastarg(Signer.Sign, 0) == s.signer && tostr(lastarg(Signer.Sign, 1)) == signingString && ncalls(Signer.Sign) == old(ncalls(Signer.Sign)) + 1
 //@   ensures [ok] err == nil ==> lastret(Signer.Sign, 2) == nil && result == base64.RawURLEncoding.EncodeToString(lastret(Signer.Sign, 0)) && s.certs == lastret(Signer.Sign, 1)
 //@   ensures [err] err != nil ==> result == "" && s.certs == old(s.certs)
 //@ func (*remoteSigningMethod).Alg(s)
